@@ -90,12 +90,11 @@ def _show(n):
 
 def impl(c):
     op, ver, tv, tp, ev, ep = c.args
-    t = common.make_net(ver, tv, tp)
-    e = common.make_net(ver, ev, ep)
+    # every question is asked twice, the blocks of the first answer being moved in place in between (common.twice)
     if op == 'partition':
-        b, mid, a = cidr_partition(t, e)
+        b, mid, a = common.twice(lambda: cidr_partition(common.make_net(ver, tv, tp), common.make_net(ver, ev, ep)))
         return ' '.join(plist(_show(x) for x in l) for l in (b, mid, a))
-    return plist(_show(x) for x in cidr_exclude(t, e))
+    return plist(_show(x) for x in common.twice(lambda: cidr_exclude(common.make_net(ver, tv, tp), common.make_net(ver, ev, ep))))
 
 
 def _parse(s):
